@@ -25,6 +25,7 @@ CONSTANTS
   Changes = {"none", "revoke"}
   Presents = {"same", "nocert"}
   Memory = FALSE
+  SharedVerdict = FALSE
 INIT Init
 NEXT Next
-INVARIANTS AuthSound VpcSound ScopeSound Complete ResumeSound ResumeScope SeqSound
+INVARIANTS AuthSound VpcSound ScopeSound Complete ResumeSound ResumeScope SeqSound RaceSound
